@@ -149,6 +149,13 @@ func (d *Driver) Snapshot(ctx context.Context) (migrate.RestoreFunc, error) {
 		return nil, err
 	}
 	return func(ctx context.Context) error {
+		// The executed statements may have left a transaction open: an explicit BEGIN
+		// or SAVEPOINT without its COMMIT, or one whose COMMIT was not reached because
+		// a statement failed. VACUUM cannot run within a transaction, and the deletion
+		// below would be rolled back together with it when the connection is closed.
+		// Nothing of it should be kept, therefore roll it back first. The error that is
+		// returned when there is no active transaction is expected and ignored.
+		_, _ = d.ExecContext(ctx, "ROLLBACK;")
 		for _, stmt := range []string{
 			"PRAGMA writable_schema = 1;",
 			"DELETE FROM sqlite_master WHERE type IN ('table', 'view', 'index', 'trigger');",
